@@ -18,7 +18,12 @@ def frame_words(case):
 
 
 def bounded_depth(case):
+    """Depth of the terminating variant of a recursion program, or None when even two frames do not fit the smallest
+    stack the program runs on (a spawned thread has 2 MB, the budget of the main thread is smaller than its 8 MB):
+    for such frames 'stack overflow' is the correct answer of the bounded program as well."""
     words = frame_words(case)
+    if words * 8 * 3 > 1_500_000:
+        return None
     return 200 if words <= 64 else (5 if words <= 512 else 2)
 
 
@@ -83,7 +88,8 @@ def main(tier):
             if not ok:
                 return (job, None, None, err)
             r = core.run_exe(exe, flags=case.get("flags"), timeout=180)
-            rb = core.run_exe(exe, [bounded_depth(case)], flags=case.get("flags"), timeout=180) if case["expect"] == "stack" else None
+            rb = core.run_exe(exe, [bounded_depth(case)], flags=case.get("flags"), timeout=180) \
+                if case["expect"] == "stack" and bounded_depth(case) is not None else None
             return (job, r, rb, "")
         results = core.parallel(work, jobs, workers=8)
         evals = 0
